@@ -395,9 +395,51 @@ def check_weight_wrapper(ctx, F):
             ctx.ok('R4', rolea, c.defpath, '%d refusing exit(s), each behind is_nan' % n_err, key=keya)
 
 
+def check_builders_total_on_weights(ctx, F):
+    """"For every non-empty list of non-negative weights": whether a tree can be built may depend on how *many* weights there
+    are (none; more than the node index type can number), never on their values - zeros and repeated weights included.  So
+    the builders have no panicking exit inside the merge loop, and the panicking exits in front of it are decided by the
+    length of the list alone."""
+    for tree in (ENC, DEC):
+        for b in [x for x in F.bodies if x.promoted is None and x.name == BUILDER and x.self_adt == tree]:
+            key = 'R2/builder-total-on-weights/' + b.defpath
+            role = 'the builder diverges on the length of the list only, never on a weight'
+            try:
+                _, paths = rules.evaluate(b)
+            except sym.TooManyPaths:
+                ctx.unresolved('R2', role, b.defpath, 'too many paths', key=key)
+                continue
+            ctx.touch(b)
+            bad = None
+            unres = None
+            n = 0
+            for r in paths or []:
+                if r.end not in ('diverge', 'panic', 'assert'):
+                    continue
+                n += 1
+                in_loop = any(e['kind'] == 'loop_enter' for e in r.events)
+                last = r.preds[-1][0] if r.preds else None
+                sizes_only = last is not None and not sym.contains(last, lambda x: isinstance(x, tuple) and x and (x[0] == 'loop' or (x[0] == 'call' and str(x[1]).endswith(('::pop', 'Iterator::next'))))) \
+                    and sym.contains(last, lambda x: isinstance(x, tuple) and x and x[0] == 'call' and str(x[1]).endswith(('::len', '::is_empty')))
+                structural = last is not None and last[0] in ('discr', 'is', 'not') and not sym.contains(last, lambda x: isinstance(x, tuple) and x and x[0] == 'bin')
+                if in_loop and structural:
+                    unres = unres or ('a panicking exit inside the merge loop on the shape of `%s` (an `expect` on a pop that cannot fail?)' % sym.show(last)[:100])
+                elif in_loop:
+                    bad = bad or ('a panicking exit inside the merge loop, decided by `%s`: whether the tree can be built then depends on the weights (two zero weights make a "sum grew" test fail)' % (sym.show(last)[:100] if last is not None else '?'))
+                elif not sizes_only:
+                    unres = unres or ('a panicking exit in front of the loop is decided by `%s`' % (sym.show(last)[:100] if last is not None else '?'))
+            if bad:
+                ctx.bad('R2', role, b.defpath, bad, key=key, loc=rules.loc(b))
+            elif unres:
+                ctx.unresolved('R2', role, b.defpath, unres, key=key)
+            else:
+                ctx.ok('R2', role, b.defpath, '%d panicking exit(s), all in front of the merge loop and decided by len() / is_empty() of the list' % n, key=key)
+
+
 def run(ctx):
     F = ctx.F
     check_wrapper_siblings(ctx, F)
+    check_builders_total_on_weights(ctx, F)
     check_weight_wrapper(ctx, F)
     check_num_symbols(ctx, F)
     check_rejects_before_accepting(ctx, F)
